@@ -89,36 +89,33 @@ def paintNote (im : List (Nat × Nat)) (m : Mapping) (f : Frame) (note : Nat) (c
 /-- `note - byte(offset)` in `uint8` -/
 def baseOf (note : Nat) (offset : Int) : Nat := u8 ((note : Int) - (u8 offset : Int))
 
+/-- the paints of the action keys, in the painting order of the source (later entries win): panic red; octave and semitone
+    keys dim, brighter at ±1, brightest beyond; mapping keys bright, dim at the ends; channel keys in the channel colour,
+    a third of it at the ends; multinote dim -/
+def actionPaints (d : Dev) : List (Action × RGB) :=
+  [(.panic, red), (.octaveUp, white1), (.octaveDown, white1)] ++
+  (if d.octave > 0 then [(Action.octaveUp, if d.octave = 1 then white2 else white3)] else []) ++
+  (if d.octave < 0 then [(Action.octaveDown, if d.octave = -1 then white2 else white3)] else []) ++
+  [(.semitoneUp, white1), (.semitoneDown, white1)] ++
+  (if d.semitone > 0 then [(Action.semitoneUp, if d.semitone = 1 then white2 else white3)] else []) ++
+  (if d.semitone < 0 then [(Action.semitoneDown, if d.semitone = -1 then white2 else white3)] else []) ++
+  [(.mappingUp, white3), (.mappingDown, white3)] ++
+  (if d.mapping = 0 then [(Action.mappingDown, white1)] else []) ++
+  (if (d.mapping : Int) = (d.cfg.maps.length : Int) - 1 then [(Action.mappingUp, white1)] else []) ++
+  [(.channelUp, chanColor d.channel), (.channelDown, chanColor d.channel)] ++
+  (if d.channel = 0 then [(Action.channelDown, third (chanColor d.channel))] else []) ++
+  (if d.channel = 15 then [(Action.channelUp, third (chanColor d.channel))] else []) ++
+  [(.multinote, white1)]
+
+/-- the frame after the strip LEDs: everything 'unavailable', strip LEDs off -/
+def frameStrip (checked : Bool) (d : Dev) (devName : String) (leds : List String) : Frame :=
+  (stripLeds devName).foldl (fun f name =>
+    if checked then (match alookup name (nameToIndex leds) with | some i => setAt f i off | none => f)
+    else setAt f ((alookup name (nameToIndex leds)).getD 0) off) (.ok (List.replicate leds.length d.cfg.colors.unavailable))
+
 /-- the frame before the keyboard mapping is painted: unavailable colour, strip LEDs, action keys -/
 def framePre (checked : Bool) (d : Dev) (devName : String) (leds : List String) : Frame :=
-  let cfg := d.cfg
-  let cols := cfg.colors
-  let im := indexMap leds
-  let ni := nameToIndex leds
-  let f : Frame := .ok (List.replicate leds.length cols.unavailable)
-  let f := (stripLeds devName).foldl (fun f name =>
-    if checked then (match alookup name ni with | some i => setAt f i off | none => f)
-    else setAt f ((alookup name ni).getD 0) off) f
-  let pa := paintAction checked cfg im
-  let f := pa f .panic red
-  let f := pa f .octaveUp white1
-  let f := pa f .octaveDown white1
-  let f := if d.octave > 0 then pa f .octaveUp (if d.octave = 1 then white2 else white3) else f
-  let f := if d.octave < 0 then pa f .octaveDown (if d.octave = -1 then white2 else white3) else f
-  let f := pa f .semitoneUp white1
-  let f := pa f .semitoneDown white1
-  let f := if d.semitone > 0 then pa f .semitoneUp (if d.semitone = 1 then white2 else white3) else f
-  let f := if d.semitone < 0 then pa f .semitoneDown (if d.semitone = -1 then white2 else white3) else f
-  let f := pa f .mappingUp white3
-  let f := pa f .mappingDown white3
-  let f := if d.mapping = 0 then pa f .mappingDown white1 else f
-  let f := if (d.mapping : Int) = (cfg.maps.length : Int) - 1 then pa f .mappingUp white1 else f
-  let cc := chanColor d.channel
-  let f := pa f .channelUp cc
-  let f := pa f .channelDown cc
-  let f := if d.channel = 0 then pa f .channelDown (third cc) else f
-  let f := if d.channel = 15 then pa f .channelUp (third cc) else f
-  pa f .multinote white1
+  (actionPaints d).foldl (fun f p => paintAction checked d.cfg (indexMap leds) f p.1 p.2) (frameStrip checked d devName leds)
 
 /-- pitch-class colour of MIDI note `x` in mapping `m` (`shifted` = white, black, c) -/
 def classColor (m : Mapping) (shifted : RGB × RGB × RGB) (x : Nat) : RGB :=
